@@ -72,7 +72,7 @@ PROPS = {
                "Zap.C06_dv", "Zap.C06_dv_newNum", "Zap.C06_dv_visit", "Zap.C06_dv_ascending", "Zap.C06_dv_entries",
                "Zap.C06_dvfields", "Zap.C06_dvFieldNames", "Zap.C06_dv_fix_D11"],
               MERGE_FILES + ["ZapProofs/Props/C06Dv.lean", "ZapProofs/MergeDvLemmas.lean"]),
-    "C07": _p([{"regress": "d8_prealloc_missing_field.script"}, {"gen": "C07"}], ["ZapProofs.Props.C07", "ZapProofs.Props.C07Reuse"],
+    "C07": _p([{"regress": "d13_advance_beyond_32_bits.script"}, {"regress": "d8_prealloc_missing_field.script"}, {"gen": "C07"}], ["ZapProofs.Props.C07", "ZapProofs.Props.C07Reuse"],
               ["Zap.C07_run", "Zap.C07_count", "Zap.C07_live", "Zap.C07_replace",
                "Zap.C07_reuse", "Zap.C07_reuse_spec", "Zap.C07_reuse_absent", "Zap.C07_reuse_source", "Zap.C07_flags_extracted",
                "Zap.C07_preserved_ok"],
